@@ -37,6 +37,7 @@ type l1Profile struct {
 	Hook     bool // permissioned-channel metadata + IBC stub traffic
 	BadCfg   int  // % of create-bridge messages with a hostile period
 	RegFee   bool
+	Reimport int // % of blocks preceded by a restart of the chain from its exported genesis
 	NonTriv  func(w *l1World) bool
 }
 
@@ -72,6 +73,11 @@ type l1World struct {
 	lastRes *abci.ResponseFinalizeBlock
 	ownAll   bool // C16 after a re-import: every deviation from the model is a deviation from the original chain
 	replicas []*l1Replica
+	recent   [][]byte // recently broadcast transactions (client traffic re-uses them)
+	burstTail   bool   // the last operation of a burst block: a deletion somewhere in the long log
+	burstBridge uint64 // while non-zero every generated operation is an output proposal for this bridge (long logs)
+	lenient  bool     // deviations owned by other properties are logged, not fatal (state comparison right after a genesis restart)
+	sidePct  int      // % of schedule points with client traffic on discarded branches
 	genesis  *node.L1Genesis
 }
 
@@ -107,6 +113,10 @@ func (w *l1World) own(owners []string) bool {
 func (w *l1World) fail(m mismatch) *core.Violation {
 	if w.own(m.Owners) {
 		return w.r.Viol(m.Inv, m.Key, "%s", m.Msg)
+	}
+	if w.lenient {
+		w.r.Logf("(not judged here, owned by %v) %s: %s", m.Owners, m.Inv, m.Msg)
+		return nil
 	}
 	panic(core.Abort{Reason: "foreign:" + m.Inv})
 }
@@ -159,6 +169,7 @@ func newL1World(r *core.Run, p *l1Profile) *l1World {
 		}
 	}
 	w.avoidKnown = r.Chance(4, 5)
+	w.sidePct = []int{0, 10, 30, 60}[r.Intn(4)]
 	r.Logf("L1 world: users=%d denoms=%d regfee=%s avoidKnown=%v t0=%s", nu, nd, w.m.RegFee, w.avoidKnown, w.now.Format(time.RFC3339Nano))
 	return w
 }
@@ -178,6 +189,9 @@ func (w *l1World) pickSigner(auth ...string) string {
 
 func (w *l1World) pickBridge(m *modelL1, allowMissing bool) uint64 {
 	ids := m.bridgeIDs()
+	if w.burstBridge != 0 && m.Bridges[w.burstBridge] != nil {
+		return w.burstBridge
+	}
 	if allowMissing && (len(ids) == 0 || w.r.Chance(1, 8)) {
 		return m.NextBridgeID + uint64(w.r.Intn(2))
 	}
@@ -318,6 +332,12 @@ func (w *l1World) genOp(spec *modelL1, bc blockCtx) (sdk.Msg, string, string) {
 		wt[0] = 0
 	}
 	k := kinds[w.r.Weighted(wt)]
+	if w.burstBridge != 0 {
+		k = "propose"
+		if w.burstTail {
+			k = "delete"
+		}
+	}
 	switch k {
 	case "create":
 		cfg := w.genConfig()
@@ -386,6 +406,13 @@ func (w *l1World) genOp(spec *modelL1, bc blockCtx) (sdk.Msg, string, string) {
 			idx, l2, root, desc = b.NextOutIdx-1, o.L2Block, o.Root, "RESEND-latest"
 		}
 		signer := w.pickSigner(b.Cfg.Proposer)
+		if w.burstBridge != 0 && w.r.Chance(9, 10) {
+			// catching up: the next index, a higher L2 block, the proposer itself
+			idx, signer = b.NextOutIdx, b.Cfg.Proposer
+			if l2 <= prevBlk {
+				l2 = prevBlk + 1
+			}
+		}
 		return &ophosttypes.MsgProposeOutput{Proposer: signer, BridgeId: id, OutputIndex: idx, L2BlockNumber: l2, OutputRoot: root[:]}, k,
 			fmt.Sprintf("bridge=%d idx=%d l2block=%d by=%s %s", id, idx, l2, short(signer), desc)
 	case "delete":
@@ -405,6 +432,10 @@ func (w *l1World) genOp(spec *modelL1, bc blockCtx) (sdk.Msg, string, string) {
 			idx = 0
 		}
 		signer := w.pickSigner(b.Cfg.Challenger, b.Cfg.Proposer, spec.Gov)
+		if w.burstTail && b.NextOutIdx > 1 {
+			// the challenger rejects a large part of what was just proposed
+			idx, signer = 1+uint64(w.r.Intn(int(b.NextOutIdx-1))), b.Cfg.Challenger
+		}
 		return &ophosttypes.MsgDeleteOutput{Challenger: signer, BridgeId: id, OutputIndex: idx}, k, fmt.Sprintf("bridge=%d idx=%d by=%s", id, idx, short(signer))
 	case "claim":
 		msg, desc := w.genClaim(spec, bc)
@@ -880,6 +911,11 @@ func completenessOwners(kind string) []string {
 // runBlock generates, executes and checks one block.
 func (w *l1World) runBlock() *core.Violation {
 	r := w.r
+	if w.p.Reimport > 0 && r.Chance(w.p.Reimport, 100) {
+		if v := w.reimport(); v != nil {
+			return v
+		}
+	}
 	T := w.pickTime()
 	bc := blockCtx{Height: w.n.Height() + 1, Time: T}
 	stub := w.genStubOps()
@@ -889,8 +925,17 @@ func (w *l1World) runBlock() *core.Violation {
 	if r.Chance(1, 10) {
 		ntx = 0
 	}
+	w.burstBridge = 0
+	if ids := spec.bridgeIDs(); w.p.W["burst"] > 0 && len(ids) > 0 && r.Chance(w.p.W["burst"], 1000) {
+		// a proposer catching up: one block full of output proposals (logs far longer than any constant in the code)
+		w.burstBridge = ids[r.Intn(len(ids))]
+		ntx = 90 + r.Intn(70)
+		r.Probe("propose.burst")
+	}
+	defer func() { w.burstBridge, w.burstTail = 0, false }()
 	var txs []pendingTx
 	for i := 0; i < ntx; i++ {
+		w.burstTail = w.burstBridge != 0 && i == ntx-1 && r.Chance(1, 2)
 		msg, kind, desc := w.genOp(spec, bc)
 		pt := pendingTx{Msg: msg, Kind: kind, Desc: desc}
 		if w.p.W["multi"] > 0 && r.Chance(w.p.W["multi"], 100) {
@@ -958,13 +1003,14 @@ func (w *l1World) execBlock(bc blockCtx, txs []pendingTx, stub []node.StubOp, cr
 	if crash == "before-finalize" {
 		w.restart(crash)
 	}
+	w.sideTraffic("before-finalize", raw)
 	w.n.Fault.ResetLog()
 	var res *abci.ResponseFinalizeBlock
 	var err error
 	if crash == "aborted-optimistic-execution" {
 		r.Fault("aborted-optimistic-execution")
 		r.Logf("block %d is first executed optimistically, that execution is aborted and discarded, then it is executed again", bc.Height)
-		res, err = w.n.FinalizeAfterAbortedOE(T, raw, stub)
+		res, err = w.n.FinalizeAfterAbortedOE(T, raw, stub, w.altProposal(raw))
 	} else {
 		res, err = w.n.Finalize(T, raw, stub)
 	}
@@ -988,9 +1034,18 @@ func (w *l1World) execBlock(bc blockCtx, txs []pendingTx, stub []node.StubOp, cr
 		}
 		res = res2
 	}
+	w.sideTraffic("before-commit", raw)
 	w.n.Commit()
 	if crash == "after-commit" {
 		w.restart(crash)
+	}
+	w.sideTraffic("after-commit", raw)
+	for _, t := range raw {
+		if len(w.recent) < 24 {
+			w.recent = append(w.recent, t)
+		} else {
+			w.recent[r.Intn(24)] = t
+		}
 	}
 	if len(w.replicas) > 0 {
 		if v := w.runReplicas(bc, raw, stub, res); v != nil {
@@ -1332,4 +1387,59 @@ func (w *l1World) applyMulti(pt pendingTx, tr *txRes, bc blockCtx, faultFired bo
 	}
 	w.r.Probe("multi.committed")
 	return nil
+}
+
+// sideTraffic is what a serving node meets between the consensus calls: clients
+// simulate transactions for gas estimation and broadcast them into the mempool.  Both
+// execute real handler code on a branch of the last committed state that is thrown
+// away, so nothing of it may be visible in any later result (only keeper memory could
+// carry it over).  Transactions are taken from this block and from recent blocks.
+func (w *l1World) sideTraffic(point string, cur [][]byte) {
+	if w.sidePct == 0 || !w.r.Chance(w.sidePct, 100) {
+		return
+	}
+	for k := 1 + w.r.Intn(3); k > 0; k-- {
+		var t []byte
+		switch {
+		case len(cur) > 0 && (len(w.recent) == 0 || w.r.Chance(1, 2)):
+			t = cur[w.r.Intn(len(cur))]
+		case len(w.recent) > 0:
+			t = w.recent[w.r.Intn(len(w.recent))]
+		default:
+			return
+		}
+		if w.r.Chance(1, 4) {
+			w.n.SideCheckTx(t)
+			w.r.Fault("discarded-execution.checktx." + point)
+		} else {
+			w.n.SideSimulate(t)
+			w.r.Fault("discarded-execution.simulate." + point)
+		}
+	}
+}
+
+// altProposal chooses the transaction list of the aborted proposal: the same list, or
+// a different proposal for the same height (some transactions missing, other recent
+// ones included, another order).
+func (w *l1World) altProposal(raw [][]byte) [][]byte {
+	if w.r.Chance(1, 2) {
+		return nil
+	}
+	alt := [][]byte{}
+	for _, t := range raw {
+		if !w.r.Chance(1, 4) {
+			alt = append(alt, t)
+		}
+	}
+	for k := w.r.Intn(3); k > 0 && len(w.recent) > 0; k-- {
+		alt = append(alt, w.recent[w.r.Intn(len(w.recent))])
+	}
+	for i := len(alt) - 1; i > 0; i-- {
+		if w.r.Chance(1, 3) {
+			j := w.r.Intn(i + 1)
+			alt[i], alt[j] = alt[j], alt[i]
+		}
+	}
+	w.r.Fault("aborted-optimistic-execution.different-proposal")
+	return alt
 }
